@@ -746,6 +746,19 @@ impl World {
             Ok(r) => r,
             Err(_) => {
                 self.dead = true;
+                // F13: the secret-release guard `commitment_number + 2 > next` (and `n + 1` on the way to
+                // it) overflows for request-supplied numbers near u64::MAX.  Debug build: this panic.
+                // Release build (no overflow checks): the sum wraps, the guard passes and a secret — for
+                // u64::MAX the commitment seed itself — is returned (notes/recon/f13_release_replay.rs).
+                if matches!(kind, "getsecret" | "getsecretnone" | "revoke" | "hrevoke") {
+                    let n = num(if kind == "hrevoke" { 2 } else { 1 });
+                    if n >= u64::MAX - 2 {
+                        self.violation(
+                            "c01-secret-guard-overflow",
+                            format!("{} {}: arithmetic overflow in the secret-release guard (panic here; wraps and discloses in a release build)", kind, n),
+                        );
+                    }
+                }
                 Err("panic".into())
             }
         };
